@@ -2,23 +2,24 @@
 # Builds (or reuses) the worker binary for the current /repo tree + /verif sources; prints its path.
 # usage: build.sh [race]
 set -u
-cd /verif || exit 2
+cd "$(dirname "$(readlink -f "$0")")" || exit 2
+VERIF_DIR=$(pwd); export VERIF_DIR
 export GOFLAGS=-mod=mod GOPROXY=off GOSUMDB=off GOTOOLCHAIN=local
 MODE="${1:-plain}"
 mkdir -p .work/bin
 H=$( { (cd /repo && find . -name '*.go' -not -path './test/*' -not -path './.git/*' -print0 | sort -z | xargs -0 sha1sum; cat go.mod go.sum); find rt instr harness -name '*.go' -print0 | sort -z | xargs -0 sha1sum; cat go.mod; } | sha1sum | cut -c1-16)
-BIN=/verif/.work/bin/vcheck-$MODE-$H
+BIN=$VERIF_DIR/.work/bin/vcheck-$MODE-$H
 if [ ! -x "$BIN" ]; then
-  cp /repo/go.sum /verif/go.sum 2>/dev/null
+  cp /repo/go.sum $VERIF_DIR/go.sum 2>/dev/null
   TMP=$(mktemp -d "${TMPDIR:-/tmp}/verif-instr-XXXXXX") || exit 2
   trap 'rm -rf "$TMP"' EXIT
   go build -o "$TMP/instr" ./instr >&2 || exit 2
-  "$TMP/instr" -repo /repo -rt /verif/rt -out "$TMP/o" >&2 || exit 2
+  "$TMP/instr" -repo /repo -rt "$VERIF_DIR/rt" -out "$TMP/o" >&2 || exit 2
   FLAGS=()
   [ "$MODE" = race ] && FLAGS+=(-race)
   go build "${FLAGS[@]}" -overlay "$TMP/o/overlay.json" -o "$TMP/vcheck" ./harness/vcheck >&2 || exit 2
   mv "$TMP/vcheck" "$BIN"
   # keep only the six most recent binaries
-  ls -t /verif/.work/bin/vcheck-* 2>/dev/null | tail -n +7 | xargs -r rm -f
+  ls -t $VERIF_DIR/.work/bin/vcheck-* 2>/dev/null | tail -n +7 | xargs -r rm -f
 fi
 echo "$BIN"
